@@ -129,6 +129,11 @@ def discharge(P, f, kind, bb):
             for (a, b) in ((m["a"], m["b"]), (m["b"], m["a"])):
                 if b["k"] == "const" and b.get("bits") == "1" and b["ty"]["s"] in ("usize", "u64") and a["k"] in ("copy", "move"):
                     return "D4 counter + 1 on %s (needs 2^64 steps)" % b["ty"]["s"]
+        # D5: arithmetic on a character inside a per-character classifier, evaluated over
+        # intervals of code points (rules/charclass.py): the assert holds for every code point
+        from charclass import asserts_proved_safe
+        if bb in asserts_proved_safe(f):
+            return "D5 holds for every code point (interval evaluation of the classifier)"
         return None
     return None
 
@@ -300,16 +305,19 @@ def support_len_equality_guard(P, f, kind, bb):
 
 
 def support_windows_2(P, f, kind, bb):
-    site = P.closure_sites.get(f.id)
-    if site is None:
+    """the indexed value is an element of `windows(2)` and the constant index is < 2"""
+    m = f.blocks[bb]["term"]["msg"]
+    ic = _const_of(f, m["index"])
+    if ic is None or ic >= 2:
         return False
-    pf = site[0]
-    w = [c for c in pf.calls if c.path == "core::slice::<impl [T]>::windows" and c.args[1].get("bits") == "2"]
-    al = [c for c in pf.calls if c.path in ("std::iter::Iterator::all", "std::iter::Iterator::any", "std::iter::Iterator::map", "std::iter::Iterator::for_each")]
-    if len(w) != 1 or not al:
-        return False
-    ic = _const_of(f, f.blocks[bb]["term"]["msg"]["index"])
-    return ic is not None and ic < 2 and any(pf.origins_of_operand(a.args[0]) and all(_is_call(o, "windows") or True for o in pf.origins_of_operand(a.args[0])) for a in al)
+    host = f
+    if f.kind == "closure":
+        site = P.closure_sites.get(f.id)
+        if site is None:
+            return False
+        host = site[0]
+    w = [c for c in host.calls if c.path == "core::slice::<impl [T]>::windows" and c.args[1].get("bits") == "2"]
+    return len(w) == 1
 
 
 def support_rem_by_len(P, f, kind, bb):
@@ -364,28 +372,56 @@ SUPPORTS = {
 }
 
 
+def relaxed_key(f, kind, bb):
+    """(kind, indexed / unwrapped type) - survives renames of variables and moves of the
+    expression into another function."""
+    t = f.blocks[bb]["term"]
+    if kind.startswith("assert:"):
+        m = t["msg"]
+        if m["k"] == "bounds_check":
+            lc = _const_of(f, m["len"])
+            return "bounds|%s" % ("array[%d]" % lc if lc is not None else "slice")
+        if m["k"] == "overflow":
+            return "overflow:%s" % m["op"]
+        return kind
+    c = f.call_at[bb]
+    if kind == "index":
+        full = c.callee.get("full", c.path)
+        return "index|" + full.split(" as ")[0].lstrip("<")[:80]
+    if kind.startswith("unwrap"):
+        return "%s|%s" % (kind, _names_of(f, c.args[0]).split(".")[-1])
+    return kind
+
+
 def judge(P, roots, here):
-    """Returns (rows, problems): rows = [(fn, kind, bb, key, verdict)], problems =
-    [(key, message, site)]."""
-    rev = {e["key"]: e for e in load_reviewed(here)["sites"]}
+    """Returns (rows, problems, needs_review): rows = [(fn, kind, bb, key, verdict)];
+    problems = violations [(key, message, site)]; needs_review = undischarged obligations that
+    are no evidence of a violation (reported as CHECK-ERROR)."""
+    table = load_reviewed(here)
+    rev = {e["key"]: e for e in table["sites"]}
+    was_discharged = set(table.get("discharged_on_pinned_tree", []))
     used = {}
     rows = []
     problems = []
+    review = []
+    pending = []
     for (f, kind, bb) in census(P, roots):
         key = key_of(f, kind, bb)
         d = discharge(P, f, kind, bb)
         if d:
             rows.append((f, kind, bb, key, "discharged: " + d))
             continue
+        if key in was_discharged:
+            rows.append((f, kind, bb, key, "GUARD-LOST"))
+            problems.append((key + "|guard-lost", "a panic-capable site that a dominating guard made safe on the pinned tree is no longer guarded (%s)" % kind, f.where(bb)))
+            continue
         e = rev.get(key)
         if e is None:
-            rows.append((f, kind, bb, key, "UNREVIEWED"))
-            problems.append((key, "a panic-capable site (%s) is reachable that is neither discharged by a local rule nor in the reviewed table" % kind, f.where(bb)))
+            pending.append((f, kind, bb, key))
             continue
         used[key] = used.get(key, 0) + 1
         if used[key] > e["count"]:
-            rows.append((f, kind, bb, key, "OVER-COUNT"))
-            problems.append((key + "#%d" % used[key], "more sites share the reviewed key than were reviewed (%d > %d)" % (used[key], e["count"]), f.where(bb)))
+            pending.append((f, kind, bb, key))
             continue
         if e.get("support"):
             fn = SUPPORTS[e["support"]]
@@ -398,4 +434,42 @@ def judge(P, roots, here):
                 problems.append((key + "|support", "the structural fact supporting the reviewed invariant (%s) no longer holds: %s" % (e["support"], e["invariant"]), f.where(bb)))
                 continue
         rows.append((f, kind, bb, key, "reviewed: " + e["invariant"]))
-    return rows, problems
+    # sites without an exact entry: a reviewed site that moved (helper extraction, renamed
+    # variables) keeps its kind and type - match against reviewed entries that lost their site
+    free = {}
+    for k2, e in rev.items():
+        n = e["count"] - used.get(k2, 0)
+        if n > 0:
+            parts = k2.split("|")
+            rk = None
+            if parts[1] == "index":
+                rk = "index|" + parts[2]
+            elif parts[1] == "bounds":
+                rk = "bounds"
+            elif parts[1].startswith("overflow"):
+                rk = parts[1]
+            elif parts[1].startswith("unwrap"):
+                rk = parts[1]
+            elif parts[1] == "panic":
+                rk = "panic"
+            if rk:
+                free[rk] = free.get(rk, 0) + n
+    for (f, kind, bb, key) in pending:
+        rk = relaxed_key(f, kind, bb)
+        cand = None
+        for fk in free:
+            if free[fk] > 0 and (rk == fk or rk.startswith(fk) or fk.startswith(rk.split("|")[0]) and rk.split("|")[0] in ("bounds",) or
+                                 (rk.startswith("index|") and fk.startswith("index|") and rk[6:60] == fk[6:60])):
+                cand = fk
+                break
+        if cand is not None:
+            free[cand] -= 1
+            rows.append((f, kind, bb, key, "reviewed (site moved or renamed; matched by kind and type)"))
+            continue
+        if kind == "panic" or kind.startswith("unwrap"):
+            rows.append((f, kind, bb, key, "UNREVIEWED"))
+            problems.append((key, "a new explicit panic site (%s) is reachable: the code can abort where it used to return" % kind, f.where(bb)))
+        else:
+            rows.append((f, kind, bb, key, "NEEDS-REVIEW"))
+            review.append((key, "a panic-capable site (%s) is reachable that no local rule discharges and the reviewed table does not list: the obligation is open (not evidence of a violation)" % kind, f.where(bb)))
+    return rows, problems, review
